@@ -312,5 +312,133 @@ def spec_value(spec, spell):
     return np.array(spec, dtype=float)
 
 
+
+# ======================================================================================== Coq side
+HEADER = """From Coq Require Import ZArith QArith String List Bool.
+From Pymoto Require Import Base.Num Base.Cmp Base.MMANum Model.MMAform Model.MMAvars Model.MMAcorr.
+Import ListNotations.
+Open Scope Q_scope.
+Definition mkD low upp alfa beta P Q a0 a b c d : sdata Q :=
+  {| d_low := low; d_upp := upp; d_alfa := alfa; d_beta := beta; d_P := P; d_Q := Q; d_a0 := a0; d_a := a; d_b := b;
+     d_c := c; d_d := d |}.
+Definition mkS x y z lam xsi eta mu zet s : sstate Q :=
+  {| sx := x; sy := y; sz := z; slam := lam; sxsi := xsi; seta := eta; smu := mu; szet := zet; ss := s |}.
+Definition mkP a b c d e : asypar Q := {| asyinit := a; asyincr := b; asydecr := c; asybound := d; albefa := e |}.
+Definition all (l : list bool) : bool := forallb (fun b => b) l.
+"""
+
+K_STALL = ('subsolv', 'returned point satisfies max|residual| <= 0.9*epsi_last',
+           'inner Newton loop reached maxittt = 400 (message "MMA Subsolver: itt = ..." printed)')
+K_STALL_TEXT = ('subsolv gives up after maxittt = 400 Newton steps per epsi level and returns a point whose KKT residual exceeds '
+                'the requested accuracy (only a message is printed); frequent when no constraint is active at the subproblem '
+                'optimum; inherited from the reference algorithm (undamped Newton + residual-norm backtracking), no small patch')
+
+
+def qv(a):
+    return ql(fr(a))
+
+
+def qm(a):
+    return ql([fr(r) for r in np.asarray(a, dtype=float)])
+
+
+def qopt(a):
+    return 'None' if a is None else f'(Some {qv(a)})'
+
+
+def qf(x):
+    return qlit(F(float(x)))
+
+
+def sdata_coq(s):
+    return (f'(mkD {qv(s.low)} {qv(s.upp)} {qv(s.alfa)} {qv(s.beta)} {qm(s.P)} {qm(s.Q)} {qf(s.a0)} {qv(s.a)} {qv(s.b)} '
+            f'{qv(s.c)} {qv(s.d)})')
+
+
+def state_coq(st):
+    x, y, z, lam, xsi, eta, mu, zet, sl = st
+    return f'(mkS {qv(x)} {qv(y)} {qf(z)} {qv(lam)} {qv(xsi)} {qv(eta)} {qv(mu)} {qf(zet)} {qv(sl)})'
+
+
+def sval_coq(is_scalar, vals):
+    return f'(Scal {qf(vals[0])})' if is_scalar else f'(Arr {qv(vals)})'
+
+
+def bspec_coq(spec, spell):
+    return f'(BScal {qf(spec)})' if spell == 'scalar' else f'(BList {qv(spec)})'
+
+
+def version_flags(v):
+    return ('true' if '1987' in v else 'false', 'true' if '2007' in v else 'false')
+
+
+def normal_exit(s):
+    """did the inner loop of the last epsi level end because the residual test failed?  From outside: no message for that
+    level (the message is printed exactly when ittt > maxittt - 2)"""
+    return float(np.abs(s.last_res[2]).max()) <= 0.9 * s.last_res[1]
+
+
+def iteration_checks(rec, prob, k):
+    """Coq boolean expressions (aspect name, expression) for iteration k of a recorded run"""
+    f, c = rec.first, rec.calls[k]
+    s = c.sub
+    par = f.par
+    h87, h07 = version_flags(par['version'])
+    n = rec.n
+    X = lambda a: float(np.abs(a).max()) if np.size(a) else 0.0
+    sX = max(1.0, X(c.xval), X(f.xmin), X(f.xmax), X(c.low), X(c.upp))
+    sP = max(X(s.P), X(s.Q), 1e-300)
+    shift = c.offset * (f.xmax - f.xmin)
+    sB = max(1.0, X(c.g), X(s.b), float(((np.abs(s.P) + np.abs(s.Q)) / np.abs(shift)).sum(axis=1).max()))
+    out = []
+    pre = (f'let xval := {qv(c.xval)} in let xmin := {qv(f.xmin)} in let xmax := {qv(f.xmax)} in let move := {qv(f.move)} in '
+           f'let g := {qv(c.g)} in let dg := {qm(c.dg)} in let xold1 := {qopt(c.xold1)} in '
+           f'let low := {qv(c.low)} in let upp := {qv(c.upp)} in let alfa := {qv(s.alfa)} in let beta := {qv(s.beta)} in '
+           f'let P := {qm(s.P)} in let Q := {qm(s.Q)} in let b := {qv(s.b)} in let D := {sdata_coq(s)} in '
+           f'let ret := {state_coq(s.ret)} in ')
+    scales = [rec.fns[i].scale(c.xval) for i in range(len(rec.fns))]
+    out.append(('responses', f'responses_ok [{"; ".join(fn.coq() for fn in rec.fns)}] xval {ql([F(v) for v in scales])} g dg'))
+    out.append(('mmasub', f'mmasub_ok (mkP {qf(par["asyinit"])} {qf(par["asyincr"])} {qf(par["asydecr"])} {qf(par["asybound"])} '
+                f'{qf(par["albefa"])}) {h87} {h07} xval xmin xmax move xold1 {qopt(c.xold2)} {qopt(c.offset0)} g dg '
+                f'{qf(sX)} {qf(sP)} {qf(sB)} {qv(c.offset)} low upp alfa beta P Q b'))
+    out.append(('history', f'history_ok xval xold1 {qopt(c.xold1_after)} {qopt(c.xold2_after)}'))
+    out.append(('handover', f'handover_ok low upp alfa beta P Q b xval D {qv(s.x0)}'))
+    out.append(('init', f'init_ok D {qv(s.x0)} {qf(sX)} {state_coq(s.first_res[0])}'))
+    sR0 = max(1.0, X(s.first_res[2]))
+    out.append(('residual_first', f'residual_ok D {qf(s.first_res[1])} {state_coq(s.first_res[0])} {qf(sR0)} {qv(s.first_res[2])}'))
+    # scale of the residual at the returned point: the largest term that enters it
+    x = s.ret[0]
+    big = max(1.0, X(s.P / (s.upp - x) ** 2), X(s.Q / (x - s.low) ** 2), X(s.c), X(s.b), X(s.ret[4]), X(s.ret[5]), X(s.ret[6]),
+              float((np.abs(s.P) / np.abs(s.upp - x) + np.abs(s.Q) / np.abs(x - s.low)).sum(axis=1).max()))
+    out.append(('residual_last', f'residual_ok D {qf(s.last_res[1])} ret {qf(big)} {qv(s.last_res[2])}'))
+    out.append(('levels', f'levels_ok {qf(s.epsimin)} {qv(s.epsis)}'))
+    if normal_exit(s):
+        out.append(('exit', f'exit_ok {qf(s.last_res[1])} {qf(0.9 * s.last_res[1])} {qv(s.last_res[2])}'))
+    out.append(('interior', 'interior_ok D ret'))
+    return pre + 'all [' + '; '.join(e for _, e in out) + ']', [a for a, _ in out], pre, out
+
+
+def vars_checks(rec, prob):
+    f = rec.first
+    shapes = prob['shapes']
+    cum0 = [int(v) for v in rec.cum]
+    nsig = len(shapes)
+    x0 = np.array(prob['x0'], dtype=float)
+    init = [sval_coq(s == 0, x0[cum0[i]:cum0[i + 1]]) for i, s in enumerate(shapes)]
+    out = [('concat', f'concat_ok [{"; ".join(init)}] {qv(rec.calls[0].xval if rec.calls else x0)} {zl(f.cumlens)}%nat')]
+    for nm in ('xmin', 'xmax', 'move'):
+        out.append((f'expand_{nm}', f'expand_ok {rec.n}%nat {nsig}%nat {zl(f.cumlens)}%nat {bspec_coq(prob[nm], prob["spell"][nm])} '
+                    f'(Some {qv(getattr(f, nm))})'))
+    # states seen by the callback of iteration k are the write-back of the design of iteration k
+    ks = list(range(min(len(rec.callbacks), 6))) + ([len(rec.callbacks) - 1] if len(rec.callbacks) > 6 else [])
+    for k in ks:
+        xk = x0 if k == 0 else rec.calls[k - 1].xnew
+        obs = '; '.join(sval_coq(sc, v) for sc, v, _ in rec.callbacks[k])
+        out.append((f'writeback{k}', f'writeback_ok {qv(xk)} {zl(f.cumlens)}%nat [{obs}]'))
+        if k < len(rec.calls):   # the design handed to mmasub is the concatenation of those states (read back after response())
+            out.append((f'readback{k}', f'concat_ok [{obs}] {qv(rec.calls[k].xval)} {zl(f.cumlens)}%nat'))
+    return 'all [' + '; '.join(e for _, e in out) + ']', [a for a, _ in out], '', out
+
+
 if __name__ == '__main__':
     vlib.main(lambda ctx: run(ctx), 'C10')
